@@ -392,7 +392,7 @@ fn run_one(desc: &Value, out: &mut impl Write) {
                     Err(p) => ("panic", p),
                 });
             });
-            match rx.recv_timeout(std::time::Duration::from_secs(desc["wall_s"].as_u64().unwrap_or(60))) {
+            match rx.recv_timeout(std::time::Duration::from_secs(desc["wall_s"].as_u64().unwrap_or(20))) {
                 Ok((o, m)) => {
                     (outcome, msg) = (o, m);
                     (end, steps, exited) = ("done", 0, true);
